@@ -826,10 +826,10 @@ Section WithHash.
 End WithHash.
 
 (* ---------------------------------------------------------------- executable instance *)
-(* Injective-enough encodings used ONLY to evaluate the model on concrete scenarios (the theorems
-   hold for every choice of the five functions). *)
+(* Cheap mixing functions used ONLY to evaluate the model on concrete scenarios (the theorems hold
+   for every choice of the five functions; these are kept below 2^60 so vm_compute stays fast). *)
 Definition c_root (l : list (slot * value)) : N :=
-  fold_left (fun a sv => (a * 2199023255552 + fst sv) * 1099511627776 + snd sv) l 1.
+  fold_left (fun a sv => N.land (a * 1000003 + fst sv * 8191 + snd sv) 1152921504606846975) l 1.
 Definition c_commit (r : N) (ps : list N) : N :=
   N.land (fold_left (fun a p => a * 31 + p) ps (r * 7 + 3)) 1152921504606846975.
 Definition c_art (t : lane) (r : pref) (code : N) : N := ((t * 64 + fst (fst r)) * 4096 + snd (fst r)) * 8 + code.
